@@ -35,8 +35,14 @@ def unload(e):
 
 
 def last_field(e):
-    """(adt, field) of the last field projection of a place / load expression, else None"""
+    """(adt, field) of the last field projection of a place / load expression, else None.
+    For a phi: the common last field of all alternatives."""
     e = unload(e)
+    if isinstance(e, tuple) and e and e[0] == 'phi':
+        rs = {last_field(a) for a in e[1]}
+        if len(rs) == 1:
+            return rs.pop()
+        return None
     while isinstance(e, tuple) and e and e[0] in ('view',):
         e = e[1]
     if isinstance(e, tuple) and e and e[0] == 'fld':
